@@ -42,6 +42,9 @@ extern "C" void h_seqlocks()
     CBlockIndex chain[L + 1];
     for (int i = 0; i <= L; i++) {
         t[i] = nondet_u32();
+#ifdef MONO    // timestamps non-decreasing along the chain (values still full 32-bit)
+        if (i) VASSUME(t[i - 1] <= t[i]);
+#endif
         chain[i].nHeight = i;
         chain[i].nTime = t[i];
         chain[i].pprev = i ? &chain[i - 1] : nullptr;
